@@ -40,6 +40,28 @@ def deep(nv, t, depth=0, limit=6, stop=()):
     return tuple(deep(nv, x, depth + 1, limit, stop) if isinstance(x, tuple) else x for x in t)
 
 
+def const_fold(z):
+    """Value of a constant integer expression (checked-arithmetic wrappers and casts included), or None."""
+    while isinstance(z, tuple) and z and z[0] in ("ref", "deref", "cast"):
+        z = z[1]
+    if not isinstance(z, tuple) or not z:
+        return None
+    if z[0] == "const" and isinstance(z[1], int) and not isinstance(z[1], bool):
+        return z[1]
+    if z[0] == "field" and z[3] == 0 and z[1][0] == "bin" and z[1][1].endswith("WithOverflow"):
+        z = ("bin", z[1][1].replace("WithOverflow", ""), z[1][2], z[1][3])
+    if z[0] == "bin":
+        a_, b_ = const_fold(z[2]), const_fold(z[3])
+        if a_ is None or b_ is None:
+            return None
+        try:
+            return {"Add": a_ + b_, "Sub": a_ - b_, "Mul": a_ * b_, "Div": a_ // b_ if b_ else None, "Rem": a_ % b_ if b_ else None,
+                    "Shr": a_ >> b_, "Shl": a_ << b_, "BitAnd": a_ & b_, "BitOr": a_ | b_}.get(z[1])
+        except (ValueError, OverflowError):
+            return None
+    return None
+
+
 def rpo_index(body):
     return {b: i for i, b in enumerate(rpo(body))}
 
